@@ -1106,6 +1106,12 @@ class ProductSpaceElement(LinearSpaceElement):
         if array.shape == ():
             return array.item()
 
+        if array.dtype != getattr(self.space, 'dtype', array.dtype):
+            # Result of a ufunc with another data type than this element,
+            # e.g. `np.sqrt` of integers or a comparison, wrapping it in
+            # `self.space` would cast the values back
+            return self.space.astype(array.dtype).element(array)
+
         return self.space.element(array)
 
     @property
